@@ -36,13 +36,21 @@ OutlineOf(e, dev) == Outline(e.a.glyphs, e.a.n, e.a.root, 0, dev)
 \* Dev_ScaledOffsetSign: a delivery is accepted if it traces the outline under either legitimate reading of a
 \* scaled component offset (the second one is evaluated only when the first does not fit and a matrix is involved)
 Hypot == [NoDev EXCEPT !.hypot = TRUE]
-Conforms(e, r) ==
+\* Dev_LocaOvershoot: a.over > 0 says that the loca table under which the records were visited puts its final offset
+\* `over` bytes beyond the end of glyf, so that the LAST record nominally extends past the table.  OpenType does not
+\* allow it; fonts that do it exist, and a reader either rejects the table / the glyph (an error, never a panic) or
+\* reads the last glyph from its own offset up to the end of the table (allsorts' documented workaround) - in which
+\* case every glyph, the last one included, has the outline of ITS OWN record.  Nothing else is conformant.
+Over(e) == IF "over" \in DOMAIN e.a THEN e.a.over ELSE 0
+ConformsExact(e, r) ==
   CASE r.st = "ok"  -> /\ e.o.ok /\ e.o.finite
                        /\ IF TracesOutline(r, e.o.cmds) THEN TRUE
                           ELSE IF r.exact THEN FALSE
                           ELSE LET r2 == OutlineOf(e, Hypot) IN r2.st = "ok" /\ TracesOutline(r2, e.o.cmds)
     [] r.st = "err" -> ~e.o.ok /\ ~e.o.panic
     [] OTHER        -> TRUE                      \* malformed / unmodelled / outside the numeric domain: not judged
+Conforms(e, r) ==
+  IF Over(e) > 0 /\ ~e.o.ok THEN ~e.o.panic ELSE ConformsExact(e, r)
 
 Explains(e, dev) == LET r == OutlineOf(e, dev) IN r.st = "ok" /\ TracesOutline(r, e.o.cmds)
 
